@@ -1960,6 +1960,13 @@ async def oracle_concurrent_callers(ctx):
         try:
             tasks = [asyncio.create_task(sim.client.call.proc(c, pad=b"p" * sizes[c])) for c in range(ncall)]
             await asyncio.wait_for(settle(), TIMEOUT)
+            victim = None
+            if sim.tr.paused and r.random() < 0.5:
+                # a caller gives up (asyncio.timeout) while its send waits for the paused transport: its request
+                # is already on the wire; the other calls of the client must not notice
+                victim = r.randrange(ncall)
+                tasks[victim].cancel()
+                await asyncio.wait_for(settle(), TIMEOUT)
             for _ in range(ncall + 2):
                 if sim.tr.paused:
                     sim.tr.resume()
@@ -2001,8 +2008,14 @@ async def oracle_concurrent_callers(ctx):
             for caller, t in enumerate(tasks):
                 got = (t.result() if t.done() and not t.cancelled() and t.exception() is None else
                        ("pending" if not t.done() else repr(t.exception() if not t.cancelled() else "cancelled")))
-                if got != ("reply-of", caller):
-                    problems.append(f"caller {caller} got {got!r}")
+                if caller == victim:
+                    if got != "'cancelled'":
+                        problems.append(f"the cancelled caller {caller} got {got!r}")
+                elif got != ("reply-of", caller):
+                    problems.append(f"caller {caller} got {got!r}" + (" after caller %d was cancelled in drain()" % victim
+                                                                      if victim is not None else ""))
+            if victim is not None and not problems:
+                ctx.stats.count("oracle:concurrent-callers:cancelled-in-drain")
         for t in tasks:
             if not t.done():
                 t.cancel()
@@ -2012,7 +2025,7 @@ async def oracle_concurrent_callers(ctx):
         await asyncio.gather(*tasks, return_exceptions=True)
         if problems:
             ctx.finding(Finding(PID, "client-requests-interleaved" if any("parse" in p or "frame" in p for p in problems)
-                                else "client-pairing-wrong",
+                                else ("client-call-cancelled-in-drain-disturbs-others" if victim is not None else "client-pairing-wrong"),
                                 f"{ncall} concurrent callers of one async client (payload sizes {sizes}): " + "; ".join(problems[:3]),
                                 {"sizes": sizes, "problems": problems[:8]}))
 
